@@ -492,6 +492,14 @@ def run(case, drv):
         in_dom = False
     else:
         in_dom = flags["grid_compatible"] and flags["lanes_ordered"]
+        if "ok" in m:
+            # hypothesis `hst` of bms_times_partial, evaluated by the model; K1's claim "grid-compatible => stable"
+            # is checked on every case
+            in_dom = in_dom and m["ok"]["resnap_stable"]
+            if m["ok"]["grid_compatible"] and not m["ok"]["resnap_stable"]:
+                agree = False
+                tags.append("k1-gap")
+                detail["k1"] = "grid-compatible tempo list is not re-snap stable"
         sh = [(h[0], h[1], F(h[2])) for h in d["hits"]]
         sl = [(h[0], h[1], F(h[2]), F(h[3])) for h in d["holds"]]
         if impl[0] == "err":
